@@ -1,1 +1,482 @@
-//! placeholder
+//! C09 — wire format: encode/decode are inverse, total, and exactly PROTOCOL.md.
+//!
+//! The reference layout below is written from PROTOCOL.md only (byte arrays, no code shared
+//! with `frame.rs`).  Lengths (host, payload, total frame length) are concrete per harness,
+//! all contents and field values are symbolic.
+use bytes::Bytes;
+use cow_bytes::CowBytes;
+use penguin_mux::frame::{append_push_data, BindType, Frame, OpCode};
+
+const VER: u8 = 7;
+
+// ---- reference encoder: writes into a fixed buffer, returns the length --------------------
+pub const RCAP: usize = 24;
+#[derive(Clone, Copy)]
+pub struct Ref {
+    pub b: [u8; RCAP],
+    pub n: usize,
+}
+impl Ref {
+    fn new(op: u8, id: u32) -> Self {
+        let mut r = Ref { b: [0; RCAP], n: 0 };
+        r.u8((VER << 4) | op);
+        r.u32(id);
+        r
+    }
+    fn u8(&mut self, v: u8) {
+        self.b[self.n] = v;
+        self.n += 1;
+    }
+    fn u16(&mut self, v: u16) {
+        self.u8((v >> 8) as u8);
+        self.u8(v as u8);
+    }
+    fn u32(&mut self, v: u32) {
+        self.u8((v >> 24) as u8);
+        self.u8((v >> 16) as u8);
+        self.u8((v >> 8) as u8);
+        self.u8(v as u8);
+    }
+    fn bytes(&mut self, s: &[u8]) {
+        let mut i = 0;
+        while i < s.len() {
+            self.u8(s[i]);
+            i += 1;
+        }
+    }
+}
+
+fn same(v: &[u8], r: &Ref) -> bool {
+    if v.len() != r.n {
+        return false;
+    }
+    let mut i = 0;
+    while i < r.n {
+        if v[i] != r.b[i] {
+            return false;
+        }
+        i += 1;
+    }
+    true
+}
+
+/// Encoding (both `Vec` and `Bytes`) equals the reference; decoding those bytes back (borrowed
+/// and owned) yields a frame equal to the original and with the same id / opcode.
+/// The decoders are fed the *reference* bytes (shown equal to the encoder's output just
+/// before): a stack array keeps the version/opcode octet a constant for the symbolic
+/// execution, so only the decoder arm of this opcode is explored.
+fn check_codec(f: &Frame<'_>, r: &Ref, op: OpCode) {
+    check_codec_eq(f, r, op, true)
+}
+/// `eq == false` (two-segment vectored payloads only): frame equality through `==` needs
+/// `concat()` of a heap vector and does not fit the memory limit; equality of all fields is
+/// then established through the encoding alone (same bytes, same id, same opcode).
+fn check_codec_eq(f: &Frame<'_>, r: &Ref, op: OpCode, eq: bool) {
+    let v = Vec::<u8>::from(f);
+    assert!(same(&v, r), "P:C09 encoded bytes differ from the PROTOCOL.md layout");
+    core::mem::forget(v);
+    let b = Bytes::from(f);
+    assert!(same(&b, r), "P:C09 Bytes encoding differs from the PROTOCOL.md layout");
+    core::mem::forget(b);
+    let d1 = Frame::try_from(&r.b[..r.n]);
+    match &d1 {
+        Ok(g) => {
+            assert!(g.id == f.id && g.opcode() == op, "P:C09 borrowed decode changes id/opcode");
+            if eq {
+                assert!(g == f, "P:C09 borrowed decode of an encoded frame is not equal to the frame");
+            }
+        }
+        Err(_) => panic!("P:C09 a frame built by the public constructors does not decode (borrowed)"),
+    }
+    core::mem::forget(d1);
+    let d2 = Frame::try_from(Bytes::from_static(leak(r)));
+    match &d2 {
+        Ok(g) => {
+            assert!(g.id == f.id && g.opcode() == op, "P:C09 owned decode changes id/opcode");
+            if eq {
+                assert!(g == f, "P:C09 owned decode of an encoded frame is not equal to the frame");
+            }
+        }
+        Err(_) => panic!("P:C09 a frame built by the public constructors does not decode (owned)"),
+    }
+    kani::cover!(true, "codec round trip evaluated");
+    core::mem::forget(d2);
+}
+/// `&'static` view of the reference bytes (for the owned decoder).
+fn leak(r: &Ref) -> &'static [u8] {
+    let bx: &'static mut [u8; RCAP] = Box::leak(Box::new(r.b));
+    &bx[..r.n]
+}
+
+fn enc_connect<const H: usize>() {
+    let host: [u8; H] = kani::any();
+    let (id, rwnd, port): (u32, u32, u16) = (kani::any(), kani::any(), kani::any());
+    let f = Frame::new_connect(&host, port, id, rwnd);
+    let mut r = Ref::new(0, id);
+    r.u32(rwnd);
+    r.u16(port);
+    r.bytes(&host);
+    check_codec(&f, &r, OpCode::Connect);
+    core::mem::forget(f);
+}
+fn enc_simple(which: u8) {
+    let id: u32 = kani::any();
+    match which {
+        1 => {
+            let n: u32 = kani::any();
+            let f = Frame::new_acknowledge(id, n);
+            let mut r = Ref::new(1, id);
+            r.u32(n);
+            check_codec(&f, &r, OpCode::Acknowledge);
+        }
+        2 => check_codec(&Frame::new_reset(id), &Ref::new(2, id), OpCode::Reset),
+        _ => check_codec(&Frame::new_finish(id), &Ref::new(3, id), OpCode::Finish),
+    }
+}
+fn enc_push<const P: usize>(owned: bool) {
+    let data: [u8; P] = kani::any();
+    let id: u32 = kani::any();
+    let f = if owned { Frame::new_push_owned(id, Bytes::copy_from_slice(&data)) } else { Frame::new_push(id, &data) };
+    let mut r = Ref::new(4, id);
+    r.bytes(&data);
+    check_codec(&f, &r, OpCode::Push);
+    core::mem::forget(f);
+}
+fn enc_push_vectored<const A: usize, const B: usize>(parts: usize) {
+    let a: [u8; A] = kani::any();
+    let b: [u8; B] = kani::any();
+    let id: u32 = kani::any();
+    let mut v: Vec<CowBytes<'_>> = Vec::with_capacity(2);
+    let mut r = Ref::new(4, id);
+    if parts >= 1 {
+        v.push(CowBytes::Temporary(&a));
+        r.bytes(&a);
+    }
+    if parts >= 2 {
+        v.push(if kani::any() { CowBytes::Static(Bytes::copy_from_slice(&b)) } else { CowBytes::Temporary(&b) });
+        r.bytes(&b);
+    }
+    let f = Frame::new_push_vectored(id, v);
+    check_codec_eq(&f, &r, OpCode::Push, parts < 2);
+    core::mem::forget(f);
+}
+fn enc_bind<const H: usize>() {
+    let host: [u8; H] = kani::any();
+    let (id, port): (u32, u16) = (kani::any(), kani::any());
+    let dgram: bool = kani::any();
+    let bt = if dgram { BindType::Datagram } else { BindType::Stream };
+    let f = Frame::new_bind(id, bt, &host, port);
+    let mut r = Ref::new(5, id);
+    r.u8(if dgram { 3 } else { 1 });
+    r.u16(port);
+    r.bytes(&host);
+    check_codec(&f, &r, OpCode::Bind);
+    core::mem::forget(f);
+}
+fn enc_datagram<const H: usize, const P: usize>(owned: bool) {
+    let host: [u8; H] = kani::any();
+    let data: [u8; P] = kani::any();
+    let (id, port): (u32, u16) = (kani::any(), kani::any());
+    let f = if owned {
+        Frame::new_datagram_owned(id, Bytes::copy_from_slice(&host), port, Bytes::copy_from_slice(&data))
+    } else {
+        Frame::new_datagram(id, &host, port, &data)
+    };
+    let mut r = Ref::new(6, id);
+    r.u8(H as u8);
+    r.u16(port);
+    r.bytes(&host);
+    r.bytes(&data);
+    check_codec(&f, &r, OpCode::Datagram);
+    core::mem::forget(f);
+}
+
+// ---- reference decoder validity (PROTOCOL.md) --------------------------------------------
+#[derive(PartialEq, Eq, Clone, Copy)]
+enum Shape {
+    Invalid,
+    /// valid; the frame occupies the first `used` bytes (== n for variable-length opcodes)
+    Valid { op: u8, used: usize },
+}
+fn reference_shape(b: &[u8]) -> Shape {
+    let n = b.len();
+    if n < 5 {
+        return Shape::Invalid;
+    }
+    let ver = b[0] >> 4;
+    let op = b[0] & 0x0f;
+    if ver != VER && ver != 0 {
+        return Shape::Invalid;
+    }
+    let rest = n - 5;
+    match op {
+        0 => if rest >= 6 { Shape::Valid { op, used: n } } else { Shape::Invalid },
+        1 => if rest >= 4 { Shape::Valid { op, used: 9 } } else { Shape::Invalid },
+        2 | 3 => Shape::Valid { op, used: 5 },
+        4 => Shape::Valid { op, used: n },
+        5 => {
+            if rest < 3 {
+                Shape::Invalid
+            } else if b[5] != 1 && b[5] != 3 {
+                Shape::Invalid
+            } else {
+                Shape::Valid { op, used: n }
+            }
+        }
+        6 => {
+            // host_len (1) + port (2) + host (host_len) + data (>= 0)
+            if rest < 3 {
+                Shape::Invalid
+            } else if (b[5] as usize) > rest - 3 {
+                Shape::Invalid
+            } else {
+                Shape::Valid { op, used: n }
+            }
+        }
+        _ => Shape::Invalid,
+    }
+}
+
+/// One byte string: decoding succeeds exactly if it is valid, never panics (production
+/// build), and the decoded frame carries exactly the bytes of the input.
+fn dec_one(b: &[u8]) {
+    let shape = reference_shape(b);
+    let r = Frame::try_from(b);
+    match (&r, shape) {
+        (Err(_), Shape::Invalid) => {
+            kani::cover!(true, "?invalid string rejected");
+        }
+        (Err(_), Shape::Valid { .. }) => panic!("P:C09 a byte string valid under PROTOCOL.md is rejected by the decoder"),
+        (Ok(_), Shape::Invalid) => panic!("P:C09 the decoder accepts a byte string that is invalid under PROTOCOL.md"),
+        (Ok(f), Shape::Valid { op, used }) => {
+            let id = ((b[1] as u32) << 24) | ((b[2] as u32) << 16) | ((b[3] as u32) << 8) | (b[4] as u32);
+            assert!(f.id == id, "P:C09 decoded flow id is not bytes 1..5 big-endian");
+            assert!((f.opcode() as u8) & 0x0f == op && (f.opcode() as u8) >> 4 == VER, "P:C09 decoded opcode differs from the low nibble");
+            // re-encoding pins every field to the layout
+            let v = Vec::<u8>::from(f);
+            assert!(v.len() == used, "P:C09 re-encoded length differs from the bytes the frame occupies");
+            assert!(v[0] == (VER << 4) | op, "P:C09 re-encoded version/opcode octet wrong");
+            let mut i = 1;
+            while i < used {
+                assert!(v[i] == b[i], "P:C09 decoded fields differ from the layout (re-encoding differs from the input)");
+                i += 1;
+            }
+            kani::cover!(true, "?valid string decoded and re-encoded");
+            core::mem::forget(v);
+        }
+    }
+    core::mem::forget(r);
+}
+/// Owned decoding agrees with borrowed decoding on validity, id and opcode.
+fn dec_owned_agrees(b: &'static [u8]) {
+    let r = Frame::try_from(b);
+    let o = Frame::try_from(Bytes::from_static(b));
+    match (&r, &o) {
+        (Ok(x), Ok(y)) => assert!(x.id == y.id && x.opcode() == y.opcode(), "P:C09 owned and borrowed decoding disagree"),
+        (Err(_), Err(_)) => {}
+        _ => panic!("P:C09 owned and borrowed decoding disagree on validity"),
+    }
+    core::mem::forget(r);
+    core::mem::forget(o);
+}
+
+/// All byte strings of length N whose first octet is `first` (a constant, so that only one
+/// decoder arm is explored per call); everything after the first octet is symbolic.
+fn dec_first<const N: usize>(first: u8) {
+    let mut b: [u8; N] = kani::any();
+    if N > 0 {
+        b[0] = first;
+    }
+    dec_one(&b);
+    let st: &'static mut [u8; N] = Box::leak(Box::new(b));
+    dec_owned_agrees(&st[..]);
+}
+/// Class `op` (0..=6): first octet 0x7<op> and the lenient 0x0<op>.
+/// (Enumerating the Bind type / Datagram host-length octet as constants as well was tried
+/// and is slower than leaving it symbolic.)
+fn dec_op<const N: usize>(op: u8) {
+    dec_first::<N>((VER << 4) | op);
+    dec_first::<N>(op);
+    kani::cover!(true, "decoder evaluated");
+}
+/// Every other first octet (unknown opcode with a good version, or a bad version): 242 values,
+/// each a constant for its run; the rest of the string is symbolic.
+fn dec_bad_first<const N: usize>() {
+    let b: [u8; N] = kani::any();
+    let mut f: u16 = 0;
+    while f < 256 {
+        let ver = (f as u8) >> 4;
+        let op = (f as u8) & 0x0f;
+        if !((ver == VER || ver == 0) && op <= 6) {
+            let mut c = b;
+            c[0] = f as u8;
+            let r = Frame::try_from(&c[..]);
+            assert!(r.is_err(), "P:C09 the decoder accepts a byte string that is invalid under PROTOCOL.md");
+            core::mem::forget(r);
+        }
+        f += 1;
+    }
+    kani::cover!(true, "decoder evaluated");
+}
+/// Strings shorter than the fixed header: everything symbolic.
+fn dec_short<const N: usize>() {
+    let b: [u8; N] = kani::any();
+    dec_one(&b);
+    kani::cover!(true, "decoder evaluated");
+}
+
+/// `append_push_data(encode(Push(p)), extra) == encode(Push(p ++ extra))`
+fn append<const P: usize, const E: usize>() {
+    let data: [u8; P] = kani::any();
+    let extra: [u8; E] = kani::any();
+    let id: u32 = kani::any();
+    let mut v = Vec::<u8>::from(Frame::new_push(id, &data));
+    append_push_data(&mut v, &extra);
+    let mut r = Ref::new(4, id);
+    r.bytes(&data);
+    r.bytes(&extra);
+    assert!(same(&v, &r), "P:C09 append_push_data result is not the encoding of the concatenated payload");
+    core::mem::forget(v);
+    // (the decoder is fed the reference bytes, just shown equal to `v`)
+    let d = Frame::try_from(&r.b[..r.n]);
+    match &d {
+        Ok(g) => assert!(g.id == id && g.opcode() == OpCode::Push, "P:C09 appended Push frame decodes to another id/opcode"),
+        Err(_) => panic!("P:C09 appended Push frame does not decode"),
+    }
+    kani::cover!(true, "append evaluated");
+    core::mem::forget(d);
+}
+
+macro_rules! h {
+    ($name:ident, $unwind:literal, $body:expr) => {
+        #[kani::proof]
+        #[kani::unwind($unwind)]
+        fn $name() {
+            $body
+        }
+    };
+}
+
+h!(c09_enc_connect_h0, 20, enc_connect::<0>());
+h!(c09_enc_connect_h1, 20, enc_connect::<1>());
+h!(c09_enc_connect_h3, 20, enc_connect::<3>());
+h!(c09_enc_ack, 20, enc_simple(1));
+h!(c09_enc_reset, 20, enc_simple(2));
+h!(c09_enc_finish, 20, enc_simple(3));
+h!(c09_enc_push_p0, 20, enc_push::<0>(false));
+h!(c09_enc_push_p1, 20, enc_push::<1>(false));
+h!(c09_enc_push_p4, 20, enc_push::<4>(false));
+h!(c09_enc_push_owned_p0, 20, enc_push::<0>(true));
+h!(c09_enc_push_owned_p3, 20, enc_push::<3>(true));
+h!(c09_enc_pushv_none, 20, enc_push_vectored::<1, 1>(0));
+h!(c09_enc_pushv_one, 20, enc_push_vectored::<2, 1>(1));
+h!(c09_enc_pushv_1_2, 20, enc_push_vectored::<1, 2>(2));
+h!(c09_enc_pushv_0_2, 20, enc_push_vectored::<0, 2>(2));
+h!(c09_enc_pushv_2_0, 20, enc_push_vectored::<2, 0>(2));
+h!(c09_enc_bind_h0, 20, enc_bind::<0>());
+h!(c09_enc_bind_h2, 20, enc_bind::<2>());
+h!(c09_enc_dgram_h0_p0, 20, enc_datagram::<0, 0>(false));
+h!(c09_enc_dgram_h0_p1, 20, enc_datagram::<0, 1>(false));
+h!(c09_enc_dgram_h2_p0, 20, enc_datagram::<2, 0>(false));
+h!(c09_enc_dgram_h2_p3, 20, enc_datagram::<2, 3>(false));
+h!(c09_enc_dgram_h1_p4, 20, enc_datagram::<1, 4>(false));
+h!(c09_enc_dgram_h2_p5, 20, enc_datagram::<2, 5>(false));
+h!(c09_enc_dgram_owned_h0_p0, 20, enc_datagram::<0, 0>(true));
+h!(c09_enc_dgram_owned_h1_p2, 20, enc_datagram::<1, 2>(true));
+h!(c09_enc_dgram_owned_h3_p4, 20, enc_datagram::<3, 4>(true));
+
+h!(c09_dec_short_n0, 20, dec_short::<0>());
+h!(c09_dec_short_n1, 20, dec_short::<1>());
+h!(c09_dec_short_n4, 20, dec_short::<4>());
+h!(c09_dec_op0_n5, 20, dec_op::<5>(0));
+h!(c09_dec_op1_n5, 20, dec_op::<5>(1));
+h!(c09_dec_op2_n5, 20, dec_op::<5>(2));
+h!(c09_dec_op3_n5, 20, dec_op::<5>(3));
+h!(c09_dec_op4_n5, 20, dec_op::<5>(4));
+h!(c09_dec_op5_n5, 20, dec_op::<5>(5));
+h!(c09_dec_op6_n5, 20, dec_op::<5>(6));
+h!(c09_dec_badfirst_n5, 260, dec_bad_first::<5>());
+h!(c09_dec_op0_n6, 20, dec_op::<6>(0));
+h!(c09_dec_op1_n6, 20, dec_op::<6>(1));
+h!(c09_dec_op2_n6, 20, dec_op::<6>(2));
+h!(c09_dec_op3_n6, 20, dec_op::<6>(3));
+h!(c09_dec_op4_n6, 20, dec_op::<6>(4));
+h!(c09_dec_op5_n6, 20, dec_op::<6>(5));
+h!(c09_dec_op6_n6, 20, dec_op::<6>(6));
+h!(c09_dec_badfirst_n6, 260, dec_bad_first::<6>());
+h!(c09_dec_op0_n7, 20, dec_op::<7>(0));
+h!(c09_dec_op1_n7, 20, dec_op::<7>(1));
+h!(c09_dec_op2_n7, 20, dec_op::<7>(2));
+h!(c09_dec_op3_n7, 20, dec_op::<7>(3));
+h!(c09_dec_op4_n7, 20, dec_op::<7>(4));
+h!(c09_dec_op5_n7, 20, dec_op::<7>(5));
+h!(c09_dec_op6_n7, 20, dec_op::<7>(6));
+h!(c09_dec_badfirst_n7, 260, dec_bad_first::<7>());
+h!(c09_dec_op0_n8, 20, dec_op::<8>(0));
+h!(c09_dec_op1_n8, 20, dec_op::<8>(1));
+h!(c09_dec_op2_n8, 20, dec_op::<8>(2));
+h!(c09_dec_op3_n8, 20, dec_op::<8>(3));
+h!(c09_dec_op4_n8, 20, dec_op::<8>(4));
+h!(c09_dec_op5_n8, 20, dec_op::<8>(5));
+h!(c09_dec_op6_n8, 20, dec_op::<8>(6));
+h!(c09_dec_badfirst_n8, 260, dec_bad_first::<8>());
+h!(c09_dec_op0_n9, 20, dec_op::<9>(0));
+h!(c09_dec_op1_n9, 20, dec_op::<9>(1));
+h!(c09_dec_op2_n9, 20, dec_op::<9>(2));
+h!(c09_dec_op3_n9, 20, dec_op::<9>(3));
+h!(c09_dec_op4_n9, 20, dec_op::<9>(4));
+h!(c09_dec_op5_n9, 20, dec_op::<9>(5));
+h!(c09_dec_op6_n9, 20, dec_op::<9>(6));
+h!(c09_dec_badfirst_n9, 260, dec_bad_first::<9>());
+h!(c09_dec_op0_n10, 20, dec_op::<10>(0));
+h!(c09_dec_op1_n10, 20, dec_op::<10>(1));
+h!(c09_dec_op2_n10, 20, dec_op::<10>(2));
+h!(c09_dec_op3_n10, 20, dec_op::<10>(3));
+h!(c09_dec_op4_n10, 20, dec_op::<10>(4));
+h!(c09_dec_op5_n10, 20, dec_op::<10>(5));
+h!(c09_dec_op6_n10, 20, dec_op::<10>(6));
+h!(c09_dec_badfirst_n10, 260, dec_bad_first::<10>());
+h!(c09_dec_op0_n11, 20, dec_op::<11>(0));
+h!(c09_dec_op1_n11, 20, dec_op::<11>(1));
+h!(c09_dec_op2_n11, 20, dec_op::<11>(2));
+h!(c09_dec_op3_n11, 20, dec_op::<11>(3));
+h!(c09_dec_op4_n11, 20, dec_op::<11>(4));
+h!(c09_dec_op5_n11, 20, dec_op::<11>(5));
+h!(c09_dec_op6_n11, 20, dec_op::<11>(6));
+h!(c09_dec_badfirst_n11, 260, dec_bad_first::<11>());
+h!(c09_dec_op0_n12, 20, dec_op::<12>(0));
+h!(c09_dec_op1_n12, 20, dec_op::<12>(1));
+h!(c09_dec_op2_n12, 20, dec_op::<12>(2));
+h!(c09_dec_op3_n12, 20, dec_op::<12>(3));
+h!(c09_dec_op4_n12, 20, dec_op::<12>(4));
+h!(c09_dec_op5_n12, 20, dec_op::<12>(5));
+h!(c09_dec_op6_n12, 20, dec_op::<12>(6));
+h!(c09_dec_badfirst_n12, 260, dec_bad_first::<12>());
+h!(c09_dec_op0_n13, 20, dec_op::<13>(0));
+h!(c09_dec_op1_n13, 20, dec_op::<13>(1));
+h!(c09_dec_op2_n13, 20, dec_op::<13>(2));
+h!(c09_dec_op3_n13, 20, dec_op::<13>(3));
+h!(c09_dec_op4_n13, 20, dec_op::<13>(4));
+h!(c09_dec_op5_n13, 20, dec_op::<13>(5));
+h!(c09_dec_op6_n13, 20, dec_op::<13>(6));
+h!(c09_dec_badfirst_n13, 260, dec_bad_first::<13>());
+h!(c09_dec_op0_n14, 20, dec_op::<14>(0));
+h!(c09_dec_op1_n14, 20, dec_op::<14>(1));
+h!(c09_dec_op2_n14, 20, dec_op::<14>(2));
+h!(c09_dec_op3_n14, 20, dec_op::<14>(3));
+h!(c09_dec_op4_n14, 20, dec_op::<14>(4));
+h!(c09_dec_op5_n14, 20, dec_op::<14>(5));
+h!(c09_dec_op6_n14, 20, dec_op::<14>(6));
+h!(c09_dec_badfirst_n14, 260, dec_bad_first::<14>());
+h!(c09_dec_op0_n16, 20, dec_op::<16>(0));
+h!(c09_dec_op1_n16, 20, dec_op::<16>(1));
+h!(c09_dec_op2_n16, 20, dec_op::<16>(2));
+h!(c09_dec_op3_n16, 20, dec_op::<16>(3));
+h!(c09_dec_op4_n16, 20, dec_op::<16>(4));
+h!(c09_dec_op5_n16, 20, dec_op::<16>(5));
+h!(c09_dec_op6_n16, 20, dec_op::<16>(6));
+h!(c09_dec_badfirst_n16, 260, dec_bad_first::<16>());
+
+h!(c09_append_p0_e2, 20, append::<0, 2>());
+h!(c09_append_p2_e2, 20, append::<2, 2>());
+h!(c09_append_p2_e0, 20, append::<2, 0>());
